@@ -1,4 +1,5 @@
 import AasVerif.Lemmas.RevmTop
+import AasVerif.Lemmas.RevmCtor
 import AasVerif.Lemmas.RevmRunDiverge
 import AasVerif.Gen.Revm
 /-!
@@ -88,6 +89,13 @@ theorem match_correct (r : Regex) (p : List Leaf) (s : Text) (hr : Accepted r)
     refine ⟨b, ho, ?_⟩
     rw [Revm.runCpp_refines (instrs p) s hwf hso b ho]
     exact thompson_correct r p s hr hp hs
+
+/-- The constructors of `InstructionSet`/`InstructionNotSet`/`Range` in the generated `revm.cpp` (which throw on
+empty, unsorted or overlapping ranges while the program constant is initialised) do not throw for an accepted
+pattern without a character set without ranges (`neU`; only the parser defect C18-F1 produces such a set). -/
+theorem program_constructible (r : Regex) (p : List Leaf) (hr : Accepted r) (hne : neU r = true)
+    (hp : translate r = .ok p) : cppConstructible (instrs p) = true :=
+  translate_constructible r p hr hne hp
 
 /-- The binary search `CharacterInRanges` is the documented membership test on sorted ranges. -/
 theorem character_in_ranges (rs : List Range) (c : Nat) (h : RangesSorted rs) :
